@@ -56,13 +56,34 @@ class Outcome(dict):
 # ---------------------------------------------------------------------------
 # Worker
 
+class _CaseTimeout(BaseException):
+  pass
+
+
+def _on_alarm(signum, frame):
+  raise _CaseTimeout()
+
+
 def run_one(prop, case):
-  """Run one case, never raising. Returns (outcome or None, harness_error or None)."""
+  """Run one case, never raising. Returns (outcome or None, harness_error or None).
+  A watchdog (CASE_TIMEOUT seconds, default 300) turns a hang inside one case into a harness error."""
+  import signal, threading
+  limit = getattr(prop, 'CASE_TIMEOUT', 300)
+  use_alarm = threading.current_thread() is threading.main_thread() and hasattr(signal, 'setitimer')
+  if use_alarm:
+    old = signal.signal(signal.SIGALRM, _on_alarm)
+    signal.setitimer(signal.ITIMER_REAL, limit)
   try:
     out = prop.run_case(case)
     return out, None
+  except _CaseTimeout:
+    return None, 'case did not finish within %s s (watchdog)' % limit
   except Exception:
     return None, traceback.format_exc()
+  finally:
+    if use_alarm:
+      signal.setitimer(signal.ITIMER_REAL, 0)
+      signal.signal(signal.SIGALRM, old)
 
 
 class _TimeUp(Exception):
@@ -350,8 +371,12 @@ def parent_main(args):
     procs.append((subprocess.Popen(cmd, env=dict(penv), stdout=log, stderr=subprocess.STDOUT, cwd=env.HARNESS), out, log))
   results = []
   harness_errors = []
+  hard_limit = b['max_seconds'] * 3 + 600
   for p, out, log in procs:
-    rc = p.wait()
+    try:
+      rc = p.wait(timeout=max(60, hard_limit - (time.time() - t0)))
+    except subprocess.TimeoutExpired:
+      p.kill(); rc = p.wait()
     log.close()
     if os.path.exists(out):
       with open(out) as f:
@@ -462,6 +487,10 @@ def parent_main(args):
     print('HARNESS-ERROR: %d harness errors; first:\n%s' % (len(harness_errors), harness_errors[0]['traceback']))
     if harness_errors[0].get('case') is not None:
       print('  case: %s' % jdump(harness_errors[0]['case'])[:3000])
+  missing_classes = [c for c in getattr(prop, 'REQUIRED_CLASSES', []) if not classes.get(c)]
+  if rc == 0 and missing_classes and not violations and not timed_out:
+    rc = 2
+    print('HARNESS-ERROR: required classes never generated: %s' % ', '.join(missing_classes))
   min_nontrivial = getattr(prop, 'MIN_NONTRIVIAL', 2)
   if rc == 0 and len(keys) < min_nontrivial and not violations:
     rc = 2
